@@ -93,6 +93,7 @@ type exec struct {
 	specFns map[string]*specFn
 	pureFns map[string]bool
 	noAssume bool
+	wfSeen   map[string]bool
 	frame    *frameInfo
 	fnName   string
 	fnPos    token.Pos
@@ -1164,6 +1165,25 @@ func (x *exec) indexAddr(fr *frame, i *ssa.IndexAddr, s *State) {
 	}
 }
 
+// bytesOf is the backing store of a snapshot of the byte-array value v: a function of the value, so two
+// snapshots of equal arrays are equal stores (the elements past the array's length are never
+// observable; fixing them as a function of v is what makes uninterpreted functions of a slice's
+// contents agree on equal contents).
+func (x *exec) bytesOf(v string, at types.Type) string {
+	n, _ := isByteArray(at)
+	fn := fmt.Sprintf("bytes!%d", n)
+	if _, ok := x.c.idx[fn]; !ok {
+		asort := fmt.Sprintf("(Array %s %s)", x.c.I(), x.c.SortOf(at.Underlying().(*types.Array).Elem()))
+		x.c.Fun(fn, []string{x.c.SortOf(at)}, asort)
+		var eqs []string
+		for k := int64(0); k < n; k++ {
+			eqs = append(eqs, Eq(Sel(App(fn, "bv"), x.c.ILit(k)), x.arrayGet("bv", x.c.ILit(k), at)))
+		}
+		x.c.Axiom([]string{fn}, fmt.Sprintf("(forall ((bv %s)) (! %s :pattern ((%s bv))))", x.c.SortOf(at), And(eqs...), fn))
+	}
+	return App(fn, v)
+}
+
 func (x *exec) sliceOp(fr *frame, i *ssa.Slice, s *State) {
 	xv := x.val(fr, i.X, s)
 	get := func(v ssa.Value) string {
@@ -1236,13 +1256,8 @@ func (x *exec) sliceOp(fr *frame, i *ssa.Slice, s *State) {
 		name, sortN := x.elemArr(arr.Elem())
 		h := x.h.get(s, name, sortN)
 		if nb, ok := isByteArray(at); ok {
-			back := x.c.FreshConst("arrcopy", fmt.Sprintf("(Array %s %s)", x.c.I(), x.c.SortOf(arr.Elem())))
-			var eqs []string
-			for k := int64(0); k < nb; k++ {
-				eqs = append(eqs, Eq(Sel(back, x.c.ILit(k)), x.arrayGet(x.term(av), x.c.ILit(k), at)))
-			}
-			x.assume(s, x.c.Define(x.c.Fresh("arrcopy.eq"), "Bool", And(eqs...)))
-			x.h.set(s, name, sortN, Sto(h, ref, back))
+			_ = nb
+			x.h.set(s, name, sortN, Sto(h, ref, x.bytesOf(x.term(av), at)))
 		} else {
 			x.h.set(s, name, sortN, Sto(h, ref, x.term(av)))
 		}
